@@ -75,7 +75,7 @@ def world_pool():
 
 
 SHAPES = ['T', 'T:A', 'T1,T2:T1', 'T1,T2:T1,T3:T2', 'T1,T2:G<T1>', 'out T1:A,T2:T1', 'in T1,T2', 'Function1',
-          'T1:A,T2:T1', 'out T1,T2', 'T1,T2:G<out T1>', 'T1,T2:G<G<in T1>>', 'T1,T2:T1,T3:T1', 'T1,T2:G<T1>,T3:T1']
+          'T1:A,T2:T1', 'out T1,T2', 'T1,T2:G<out T1>', 'T1,T2:G<G<in T1>>', 'T1,T2:T1,T3:T1', 'T1,T2:G<T1>,T3:T1', 'T1,T2:G<T1>,T3:G<T2>']
 
 
 def make_params(shape, A, G):
@@ -108,6 +108,10 @@ def make_params(shape, A, G):
     if shape == 'T1,T2:G<T1>,T3:T1':
         t1 = tp.TypeParameter('T1')
         return [t1, tp.TypeParameter('T2', bound=G.new([t1])), tp.TypeParameter('T3', bound=t1)]
+    if shape == 'T1,T2:G<T1>,T3:G<T2>':
+        t1 = tp.TypeParameter('T1')
+        t2 = tp.TypeParameter('T2', bound=G.new([t1]))
+        return [t1, t2, tp.TypeParameter('T3', bound=G.new([t2]))]
     if shape == 'out T1:A,T2:T1':
         t1 = tp.TypeParameter('T1', tp.Covariant, bound=A)
         return [t1, tp.TypeParameter('T2', bound=t1)]
@@ -254,7 +258,7 @@ def jobs(tier):
                       '(solver booleans) x every RNG draw', outside=OUT)]
     shapes = SHAPES if tier == 'thorough' else ['T:A', 'T1,T2:T1', 'T1,T2:T1,T3:T2', 'T1,T2:G<T1>', 'out T1:A,T2:T1',
                                                 'Function1', 'T1,T2:G<out T1>', 'T1,T2:G<G<in T1>>', 'T1,T2:T1,T3:T1',
-                                                'T1,T2:G<T1>,T3:T1']
+                                                'T1,T2:G<T1>,T3:T1', 'T1,T2:G<T1>,T3:G<T2>']
     for shape in shapes:
         for api in ('constructor', 'function') + (('compute',) if tier == 'thorough' else ()):
             for pool_kind in (('classes', 'mixed', 'generic') if tier == 'thorough' else ('mixed',)):
